@@ -296,10 +296,10 @@ theorem validDeclR_available (doc : Doc) (defs : List (List VarDefR)) (raw : Raw
   availability hypothesis). Wrapping — in the operation or inside a fragment body — does not change it either: erasing the
   unevaluable directives commutes with the wrapping, and the wrapper itself carries no directive. -/
 
-private theorem eraseD_none (v : Vars) : eraseD v {} = {} := by
+theorem eraseD_none (v : Vars) : eraseD v {} = {} := by
   simp [eraseD, dirsBound, optBound]
 
-private theorem wrapInline_erase (v : Vars) {s s' : List Sel} (h : WrapInline s s') :
+theorem wrapInline_erase (v : Vars) {s s' : List Sel} (h : WrapInline s s') :
     WrapInline (eraseL v s) (eraseL v s') := by
   induction h with
   | here pre mid post =>
@@ -312,7 +312,7 @@ private theorem wrapInline_erase (v : Vars) {s s' : List Sel} (h : WrapInline s 
     simp only [eraseL_append, eraseL_cons, eraseSel, eraseL]
     exact .inline _ _ _ _ _ ih
 
-private theorem valid_erase (doc : Doc) (v : Vars) (hu : UniqueNames doc.frags) (ha : Acyclic doc.frags) :
+theorem valid_erase (doc : Doc) (v : Vars) (hu : UniqueNames doc.frags) (ha : Acyclic doc.frags) :
     Valid (eraseDoc v doc) v := by
   refine ⟨?_, ?_, ?_⟩
   · show acyclic (eraseFrags v doc.frags) = true
@@ -363,16 +363,16 @@ theorem wrap_inline_final (doc doc' : Doc) (v : Vars) (hu : UniqueNames doc.frag
   exact e
 
 mutual
-private theorem freeSel_erase (v : Vars) (nm : String) : ∀ s : Sel, freeSel nm (eraseSel v s) = freeSel nm s
+theorem freeSel_erase (v : Vars) (nm : String) : ∀ s : Sel, freeSel nm (eraseSel v s) = freeSel nm s
   | .field a n d sub => by simp only [eraseSel, freeSel]; exact freeL_erase v nm sub
   | .inline d ss => by simp only [eraseSel, freeSel]; exact freeL_erase v nm ss
   | .spread n d => by simp [eraseSel, freeSel]
-private theorem freeL_erase (v : Vars) (nm : String) : ∀ l : List Sel, freeL nm (eraseL v l) = freeL nm l
+theorem freeL_erase (v : Vars) (nm : String) : ∀ l : List Sel, freeL nm (eraseL v l) = freeL nm l
   | [] => by simp [eraseL, freeL]
   | s :: ss => by simp only [eraseL, freeL, freeSel_erase v nm s, freeL_erase v nm ss]
 end
 
-private theorem wrapSpread_erase (v : Vars) (nm : String) (body : List Sel) {s s' : List Sel} (h : WrapSpread nm body s s') :
+theorem wrapSpread_erase (v : Vars) (nm : String) (body : List Sel) {s s' : List Sel} (h : WrapSpread nm body s s') :
     WrapSpread nm (eraseL v body) (eraseL v s) (eraseL v s') := by
   induction h with
   | here pre post =>
